@@ -284,14 +284,34 @@ def check_ctor(ctx):
             ctx.ok('CFG-10', inst, where(init), 'assigns %s before any read' % sorted(assigned))
 
 
+def check_file_protocol(ctx):
+    """CFG-2 / AGREE-2 decided by interpreting FitInfoFile on a stream of pickles (recfile.py); the path rules are the fall-back and may only say undecided"""
+    from .. import recfile, roundtrip
+    if not recfile.check_write_read(ctx, 'CFG-2', 'AGREE-2'):
+        try:
+            check_write_meta(roundtrip.SuspectCtx(ctx, 'the file protocol was not decided by interpretation and the path rule, which knows one spelling only, reports'))
+        except AnalysisError as e:
+            ctx.undecided('CFG-2', 'syntactic fall-back', 'sedfitter/fit_info.py', 'structure not recognised: %s' % e)
+
+
+def check_inputs(ctx):
+    """CFG-10: results as file name / single object / list / tuple, decided by interpretation; definite-assignment path rule as fall-back"""
+    from .. import recfile, roundtrip
+    if not recfile.check_inputs(ctx, 'CFG-10'):
+        try:
+            check_ctor(roundtrip.SuspectCtx(ctx, 'the constructor was not decided by interpretation and the path rule, which knows one spelling only, reports'))
+        except AnalysisError as e:
+            ctx.undecided('CFG-10', 'syntactic fall-back', 'sedfitter/fit_info.py', 'structure not recognised: %s' % e)
+
+
 def run(ctx):
     check_fit_loop(ctx)
-    check_write_meta(ctx)
+    check_file_protocol(ctx)
     repo = ctx.repo
     state_roundtrip(ctx, repo.cls('source.source', 'Source'))
     state_roundtrip(ctx, repo.cls('fit_info', 'FitInfo'), exclude=('meta',))
     state_roundtrip(ctx, repo.cls('extinction.extinction', 'Extinction'))
-    check_ctor(ctx)
+    check_inputs(ctx)
     common.check_ownership(ctx)
 
 
